@@ -43,6 +43,7 @@ def run(ctx: Ctx):
     ctx.assumptions = ["the tokenizer's own bookkeeping (when updatepos is called) is CPython's, recorded not verified"]
     drv = Driver()
     lines, wants, cases = [], [], []
+    shared = {}
     for i in range(ctx.n(4000, 80000)):
         r = ctx.rng("doc", i)
         nodes = c04.gen_tree(r)
@@ -50,9 +51,31 @@ def run(ctx: Ctx):
             nodes = [("t", r.choice(["\n", "\n\n", "a\nb", "\r\n", " "]))] + nodes
         offsets = []
         text = c04.write(r, nodes, offsets, [0])
+        if r.random() < 0.12:
+            # a str document may begin with U+FEFF (a BOM that survived decoding): it is a character of the parsed text like any other
+            lead = r.choice(["\ufeff", "\ufeff\n", "\u200b", "\x00"])
+            text = lead + text
+            offsets = [o + len(lead) for o in offsets]
         store = r.random() < 0.75
+        prev_text = None
         try:
-            soup = c04.real_parse(text, {} if store else {"lines": 0})
+            if r.random() < 0.2:
+                # one builder INSTANCE parsing document after document (as unpickling or a long-lived application does):
+                # positions must not carry over from the previous document
+                from bs4 import BeautifulSoup
+                import warnings as _w
+                key = "on" if store else "off"
+                if key not in shared:
+                    from bs4.builder import HTMLParserTreeBuilder
+                    shared[key] = HTMLParserTreeBuilder(multi_valued_attributes=None, **({} if store else {"store_line_numbers": False}))
+                with _w.catch_warnings():
+                    _w.simplefilter("ignore")
+                    soup = BeautifulSoup(text, builder=shared[key])
+                ctx.count("shared-builder-instance")
+                prev_text = shared.get(key + ":prev")
+                shared[key + ":prev"] = text
+            else:
+                soup = c04.real_parse(text, {} if store else {"lines": 0})
         except Exception as e:
             ctx.violation(f"parse raised {type(e).__name__}", case={"text": text}, stream="written")
             continue
@@ -70,7 +93,8 @@ def run(ctx: Ctx):
             got = (t.sourceline, t.sourcepos)
             if got != want:
                 ctx.violation(f"<{t.name}> written at offset {off}: sourceline/sourcepos {got}, true position {want}",
-                              case={"text": text, "store": store, "offset": off}, expected=want, observed=got, stream="written")
+                              case={"text": text, "store": store, "offset": off, "previous_document_same_builder": prev_text},
+                              expected=want, observed=got, stream="written")
                 break
         if store and offsets:
             lines.append(f"c18 linecol {cps(text) or '-'} {','.join(map(str, offsets))}")
@@ -117,7 +141,14 @@ def replay(path):
     c = v["case"]
     if "text" not in c:
         print(json.dumps(v, indent=1)[:2000]); return 1
-    soup = c04.real_parse(c["text"], {} if c.get("store", True) else {"lines": 0})
+    if c.get("previous_document_same_builder") is not None:
+        from bs4 import BeautifulSoup
+        from bs4.builder import HTMLParserTreeBuilder
+        b = HTMLParserTreeBuilder(multi_valued_attributes=None, **({} if c.get("store", True) else {"store_line_numbers": False}))
+        BeautifulSoup(c["previous_document_same_builder"], builder=b)
+        soup = BeautifulSoup(c["text"], builder=b)
+    else:
+        soup = c04.real_parse(c["text"], {} if c.get("store", True) else {"lines": 0})
     print("text:", repr(c["text"]))
     for t in tags_in_order(soup):
         print(f"  <{t.name}> sourceline={t.sourceline} sourcepos={t.sourcepos}")
